@@ -6,5 +6,9 @@ import GontainerModel.Props.C02
 #print axioms GM.C02.calls_order_preserved
 #print axioms GM.C02.call_args_preserved
 #print axioms GM.C02.service_parts
+#print axioms GM.C02.emit_block_shape
+#print axioms GM.C02.every_service_registered
+#print axioms GM.C02.value_is_evaluated_per_construction
+#print axioms GM.C02.pin_scope_setters
 #print axioms GM.C02.scope_mapping
 #print axioms GM.C02.todo_short_circuit
